@@ -78,6 +78,13 @@ def case_strategy(draw, ctx):
                 faces[f"{side}_{an}"] = {"kind": draw(st.sampled_from(["none", "pec", "pmc"]))}
             m.append(1)
     grid = draw(scenes.grid_strategy(shape, faces, kinds=("uniform", "uniform", "rect")))
+    # One rectilinear case in four leaves the first and last width of a periodic axis different. The property does
+    # not restrict the grid, but fdtdx's Yee dual width at index 0 ignores the wrapped neighbour (known finding F15);
+    # these cases are generated so that the class is *counted* and excluded by KNOWN_CLASSES, not silently avoided.
+    if grid["kind"] == "rect" and draw(st.integers(0, 3)) == 0:
+        ax = per_axes[draw(st.integers(0, len(per_axes) - 1))]
+        w = grid["widths"][ax]
+        w[-1] = 1.6 if w[0] != 1.6 else 0.75
     eps_tier = draw(st.sampled_from(["iso", "diag", "diag"]))
     mu_tier = draw(st.sampled_from(["none", "iso", "diag", "diag"]))
     if full:
@@ -279,3 +286,15 @@ SUBS = [
         lanes=("f64", "f32"), f32_fraction=0.25, quick_shards=2,
         rule="periodic/Bloch cell vs tiled supercell, every copy, every step"),
 ]
+
+
+def _f15(case):
+    g = case["scene"]["grid"]
+    if g["kind"] != "rect":
+        return False
+    faces = case["scene"]["faces"]
+    return any(faces[f"min_{scenes.AXNAME[a]}"]["kind"] in ("periodic", "bloch") and g["widths"][a][0] != g["widths"][a][-1]
+               for a in range(3))
+
+
+KNOWN_CLASSES = {"F15": _f15}
